@@ -155,6 +155,28 @@ theorem complete_iff_named_stream_leaves (c : L2) (hc : TOK c.streams) (i : Nat)
   rw [hv.2.1, ho.1, ← hv.1]
   rfl
 
+/-- **Attribution.**  A trace handed to the collector on behalf of stream id `i` always comes
+from a stream that is open under `i` and carries that stream's test name — the one taken
+from the request HEADERS that opened it (`newStream_name`; `stream_keeps_name`: the name
+does not change while the stream is open). -/
+theorem completed_trace_attributed (c : L2) (hc : TOK c.streams) (i : Nat) (isReq : Bool) (f : Frame) (t : Trace)
+    (h : (i, COp.complete t) ∈ (handleFrame c isReq f).2) :
+    ∃ st, tGet i c.streams = some st ∧ t.name = st.name := by
+  have hv := handleFrame_view c hc i isReq f
+  have hm : COp.complete t ∈ opsFor i (handleFrame c isReq f).2 := (mem_opsFor i _ _).mpr h
+  rw [hv.2.1] at hm
+  exact viewStep_names i (view i c) isReq f t hm
+
+theorem stream_keeps_name (c : L2) (hc : TOK c.streams) (i : Nat) (isReq : Bool) (f : Frame) (st st' : Stream)
+    (h : tGet i c.streams = some st) (h' : tGet i (handleFrame c isReq f).1.streams = some st') : st'.name = st.name := by
+  have hv := handleFrame_view c hc i isReq f
+  have ho := (viewStep_once i (view i c) isReq f).2 st st' h
+  apply ho
+  rw [← hv.1]; exact h'
+
+theorem opened_stream_name (fields : Fields) : (newStream fields).name = getHeader fields testNameHeader :=
+  newStream_name fields
+
 /-- **One trace per named stream** (conservation law): along any frame sequence, the number
 of `Complete`s from stream id `i` plus one if a named stream is still open under `i` equals
 the number of named streams opened under `i` (plus one if one was open initially): every
